@@ -45,6 +45,9 @@ class Profile(object):
         self.qualified_div = r.random() < 0.5
         self.ira = r.random() < 0.5
         self.text_pool = None
+        self.hsa_you = self.sched1_adjust and r.random() < 0.6
+        self.hsa_spouse = self.sched1_adjust and r.random() < 0.5     # only asked on a joint return
+        self.f8606 = r.random() < 0.25
         self.ctc = [r.random() < 0.6 for _ in range(4)]          # which dependents qualify for the child credit
         self.under6 = [c and r.random() < 0.4 for c in self.ctc]
         if self.itemize and self.n["1098"] == 0 and r.random() < 0.85:
@@ -149,7 +152,7 @@ class Answerer(object):
                 return str(p.dependents)
             nctc = sum(1 for k in range(min(p.dependents, 4)) if p.ctc[k])
             nu6 = sum(1 for k in range(min(p.dependents, 4)) if p.under6[k])
-            if base == "number_under_17":
+            if base in ("number_under_17", "number_under_18", "number_children_letter"):
                 return str(nctc)
             if base in ("number_under_6", "number_qualifying_under_6"):
                 return str(nu6)
@@ -204,8 +207,12 @@ class Answerer(object):
             return r.choice([yes, no])
         if base == "box_7_ira_sep_simple":
             return yes if p.ira and r.random() < 0.6 else no
+        if base == "hsa_contribution_you":
+            return yes if p.hsa_you else no
+        if base == "hsa_contribution_spouse":
+            return yes if p.hsa_spouse else no
         if base in ("ira_exception2_you", "ira_exception2_spouse"):
-            return no
+            return yes if p.f8606 else no
         if base in POSITIVE_DEFAULT:
             return yes
         if r.random() < p.yes_rate:
@@ -219,6 +226,8 @@ class Answerer(object):
                 w = getattr(self, "_w2_" + form, None)
                 if w is None:
                     w = self.amount(allow_zero=False)
+                    if w < 66000.0 and r.random() < 0.8:
+                        w = round(66000.0 + r.uniform(0, max(1000.0, p.wage_scale)), 2 if p.cents else 0)   # above the (unimplemented) EIC range
                     setattr(self, "_w2_" + form, w)
                 return "%.2f" % (w if base != "box_3" else min(w, 147000.0))
             if base in ("box_2", "box_17"):
@@ -256,13 +265,16 @@ class Answerer(object):
             return "%.2f" % r.choice([0.0, 0.0, self.small(500), 2500.0, 50000.0, 1000000.0])
         if base == "tax_penalty":
             return "%.2f" % self.small(500)
-        if "hsa" in fbase or fbase == "8889":
-            return "%.2f" % self.small(4000)
+        if fbase == "8889":
+            if base == "archer_msa":
+                return "0.00"
+            return "%.2f" % self.small(3000)
         return "%.2f" % self.small(5000)
 
 
 # booleans whose AFFIRMATIVE answer is the ordinary, supported case
 POSITIVE_DEFAULT = set([
+    "principal_abode_us",
     "age_under_55", "hsa_full_year", "ira_exception1_you_total", "ira_exception1_spouse_total",
     "ira_exception3_you_total", "ira_exception3_spouse_total", "full_year_resident", "lived_together_all_year",
     "same_coverage_all_year", "covered_all_year", "us_citizen",
